@@ -167,9 +167,9 @@ func c14LongNames() c14Family {
 func c14Families() []c14Family {
 	return []c14Family{
 		c14LongNames(),
-		{set: []string{"a"}, alpha: []string{"a", "b", ",", " ", "\t", "A"}},
+		{set: []string{"a"}, alpha: []string{"a", "b", ",", " ", "\t", "A", "\v"}},
 		{set: []string{"a", "ab", "b"}, alpha: []string{"a", "b", "c", ",", " ", "\t", "A"}},
-		{set: []string{"b", "abc"}, alpha: []string{"a", "b", "c", ",", " ", "\t"}},
+		{set: []string{"b", "abc"}, alpha: []string{"a", "b", "c", ",", " ", "\t", "\r"}},
 		{set: []string{"a_b", "a.b", "a~", "a"}, alpha: []string{"a", "b", "_", ".", "~", ",", " ", "\t"}},
 		{set: []string{"x-a", "x-b"}, alpha: []string{"x-a", "x-b", "x-", "x-ab", "x", ",", " ", "\t"}, long: true},
 		{set: []string{"accept", "authorization", "content-type", "x-api-key", "x-requested-with"},
@@ -385,7 +385,8 @@ func checkC14(c *vlib.Ctx) (string, string) {
 				elems = append(elems, s+"z", s+"zz", s[:len(s)-1], "z"+s)
 			}
 		}
-		ows := []string{"", " ", "\t", "  ", " \t", "\t ", "   ", "\t \t"}
+		// (with the other bytes that Unicode-aware trimming functions regard as space: none of them is OWS)
+		ows := []string{"", " ", "\t", "  ", " \t", "\t ", "   ", "\t \t", "\v", "\f", "\r", "\n", "\u00a0", "\u0085", "\xa0", " \f"}
 		follow := []string{"", ",", "," + sorted[len(sorted)-1], ", " + sorted[len(sorted)-1], "," + sorted[0], ",,", " ,"}
 		for _, e := range elems {
 			for _, l := range ows {
